@@ -110,4 +110,17 @@ PROPS = {
         "assumptions": ["int hashing is seed-independent", "set typing by local inference and summaries"],
         "design_ref": "DESIGN.md §3.18, §4 C18",
     },
+    "C16": {
+        "rules": ["CHILDREN", "FINDORDER", "PASTTOTAL", "NOMATCH", "EXH", "FIELDS"],
+        "thorough": [],
+        "technique": "static analysis: ADT-order agreement of the child enumerator, call-order rule for the search recursion, table totality, dispatch exhaustiveness and per-case field coverage of the matcher",
+        "level_text": "Structural clauses of find(): the child enumerator yields, for every constructor, exactly the ADT's child fields in declaration (= program) order; "
+        "the search tries a position before descending, If.body before If.orelse before the block tail; every pattern constructor maps to the same-named LoopIR constructor; "
+        "'#n' counts down once per match and selects the 0 position; no match raises; matcher dispatches are exhaustive and read every pattern field. "
+        "Navigation inverse laws (parent/child, next/prev, ...) are path arithmetic and are not decided.",
+        "level_note": "Trusted: ADT declaration order is program order for LoopIR; prefix matching of index lists in patterns is documented semantics (docs/Cursors.md) and is not flagged.",
+        "explanation": "CHILDREN compares string arguments of _children_from_attrs per case with child_fields(K,{stmt,expr,w_access}); FINDORDER compares source order of recursive calls; PASTTOTAL; NOMATCH; EXH; MATCHFIELDS.",
+        "assumptions": ["ADT field order = program order"],
+        "design_ref": "DESIGN.md §3.17, §4 C16",
+    },
 }
